@@ -137,6 +137,12 @@ def ensure_streams(app: appboot.App):
                             track_id=2, sample_durations_in="trun")
     mp4synth.register(app, "synmut", "Synthetic, media changes", {"synmut_v1": v1, "synmut_v2": v2, "synmut_a1": a},
                       timing_from="synmut_v1")
+    # synfrac: an audio timing reference of 383988/48000 s = 7.99975 s – a fractional second that rounds UP to the
+    # next whole second at millisecond precision (the carry of the xs:duration writer)
+    v = mp4synth.make_track("video", 240, [480, 480, 480, 480], samples_per_segment=4, seed=161, track_id=1)
+    a = mp4synth.make_track("audio", 48000, [96000, 96000, 96000, 95988], samples_per_segment=94, seed=162, track_id=2,
+                            sample_durations_in="trun")
+    mp4synth.register(app, "synfrac", "Synthetic 7.99975 s", {"synfrac_v1": v, "synfrac_a1": a}, timing_from="synfrac_a1")
     # synday: a timing reference longer than a day (timescale 1, ten segments of 9600 s = 26 h 40 min) – durations
     # whose days component is not zero (static manifests only)
     v = mp4synth.make_track("video", 1, [9600] * 10, samples_per_segment=4, seed=111, track_id=1)
